@@ -71,4 +71,6 @@ def main(tier):
                    'SysV argument roles from include/erasure_code.h', 'clang AST']
     ecwrap.check_wrappers(rep, 'encode')
     check_kernel_stores(rep, 'dot_prod', 'P-EC-STORE', 33)
+    provenance.check_undef(rep, {'ec_dot_prod'}, 'EC', 33)
+    provenance.check_kwidth(rep, {'ec_dot_prod'}, 'EC', 33)
     return rep.finish()
